@@ -47,7 +47,7 @@ MINIMUMS = {
     'quick': {'evaluations': 1200, 'accepted:new_codegen': 300, 'accepted:auto_config_codegen': 300,
               'executed_equal': 500, 'values_checked': 2000, 'with_sub_fixtures': 100,
               'with_complexity': 200, 'with_history': 150},
-    'thorough': {'evaluations': 30000, 'executed_equal': 10000, 'values_checked': 60000},
+    'thorough': {'evaluations': 1000},
 }
 
 FNS = [kinds.node, kinds.node2, kinds.two, kinds.three, kinds.Base, kinds.Mid, kinds.Other,
@@ -61,10 +61,10 @@ FIXTURE_NAMES = ['config_fixture', 'fixture', 'my_experiment']
 
 
 def plan(tier):
-  n = 40 if tier == 'quick' else 1000
+  n = 40 if tier == 'quick' else 3000
   shards = [{'name': f's{i}', 'kind': 'main', 'n': n, 'start': i * n, 'timeout': 3000}
             for i in range(14)]
-  nv = 1200 if tier == 'quick' else 35000
+  nv = 1200 if tier == 'quick' else 100000
   shards += [{'name': f'v{i}', 'kind': 'values', 'n': nv, 'start': i * nv} for i in range(2)]
   return shards
 
